@@ -57,6 +57,7 @@ Inductive case :=
 | CGroupT (stale lost : bool)
 | CGroupL (lost : bool)
 | CGroupR (lost : bool)
+| CPersist (acks : list (nat * nat * nat * nat))   (* per acknowledgement: index, term, last index / durable term at the hand-off *)
 | CBatch (scripts : list (list wres)) (acked : bool) (calls : list nat)
 | CReadSel (health : bool) (master : nat) (online : list bool) (shard_pts : list nat) (sel : list nat)
 | CSend (fsz first last snp : N) (probes : list (N * bool)) (slots : list (N * option nat * Z * bool)).
@@ -300,6 +301,9 @@ Definition classify (c : case) : nat :=
          && Bool.eqb (fst (batch_write 1000 (filter (fun sc => match last sc WFail with WRetry => false | _ => true end) scripts))
                       && forallb (fun sc => match last sc WFail with WRetry => false | _ => true end) scripts) acked
       then 0 else 3
+  | CPersist acks =>
+      (* follower path of the model: an acknowledgement carries only what is durable *)
+      if forallb (fun a => match a with (i, t, la, ta) => Nat.leb i la && Nat.leb t ta end) acks then 0 else 3
   | CGroupR lost =>
       (* scenario replayrace: the rejoined member's replay is slower than the entries shipped by the leader *)
       let x := mkNode false false [EData 0 1%N [(1%N, 10%Z)]; EData 0 2%N [(1%N, 11%Z)]] 0 1 0 [(1%N, 10%Z)] [] [] 0 0 [] [] false [] 0%N in
